@@ -337,7 +337,7 @@ func Send(method, rawurl string, options ...SendOption) (*http.Response, error) 
 		// TODO (@evelynl): disable retry after tls migration.
 		if err != nil && req.URL.Scheme == "https" && !opts.httpFallbackDisabled {
 			originalErr := err
-			resp, err = fallbackToHTTP(client, method, opts)
+			resp, err = fallbackToHTTP(client, req)
 			if err != nil {
 				// Sometimes the request fails for a reason unrelated to https.
 				// To keep this reason visible, we always include the original
@@ -486,14 +486,21 @@ func newRequest(method string, opts *sendOptions) (*http.Request, error) {
 	return req, nil
 }
 
-func fallbackToHTTP(
-	client *http.Client, method string, opts *sendOptions,
-) (*http.Response, error) {
-	req, err := newRequest(method, opts)
-	if err != nil {
-		return nil, err
+func fallbackToHTTP(client *http.Client, req *http.Request) (*http.Response, error) {
+	// The https attempt may have consumed the request body, so the http
+	// attempt needs a fresh copy of it.
+	fallback := req.Clone(req.Context())
+	if req.Body != nil && req.Body != http.NoBody {
+		if req.GetBody == nil {
+			return nil, errors.New("request body cannot be replayed")
+		}
+		body, err := req.GetBody()
+		if err != nil {
+			return nil, err
+		}
+		fallback.Body = body
 	}
-	req.URL.Scheme = "http"
+	fallback.URL.Scheme = "http"
 
-	return client.Do(req)
+	return client.Do(fallback)
 }
